@@ -2,6 +2,7 @@
    (L (A code :: args)); decoding and encoding are Gallina. *)
 From Coq Require Import List ZArith NArith Bool.
 From BS Require Import Base.Sexp Base.Types Base.Reader Model.Registry Model.SmartQuotes Model.Attrs Model.Heap Model.Edit Model.Build Model.Iter Model.EditOps Spec.Tree Spec.BuildSpec Spec.ListEdit.
+From BS Require Import Run.D_C15.
 Import ListNotations.
 Open Scope Z_scope.
 
@@ -232,6 +233,7 @@ Definition cmd_history (args : list sexp) : sexp :=
 Definition disp_ext (code : Z) (args : list sexp) : sexp :=
   let nn := code / 1000 in let sub := code mod 1000 in
   match nn with
+  | 15 => disp_c15 sub args
   | _ => A (-2)
   end.
 
